@@ -14,7 +14,7 @@ from .csrc import ExtractError
 
 # rules whose case body is translated into the IR and proved equal to the Op.step case in Peg/TieSkel.lean
 IR_RULES = ["RULE_IF", "RULE_IFNOT", "RULE_NOT", "RULE_DROP", "RULE_ONLY_TAGS", "RULE_SUB", "RULE_ACCUMULATE", "RULE_CAPTURE",
-            "RULE_POSITION", "RULE_CONSTANT", "RULE_GROUP", "RULE_NTH", "RULE_ERROR"]
+            "RULE_POSITION", "RULE_CONSTANT", "RULE_GROUP", "RULE_NTH", "RULE_ERROR", "RULE_BETWEEN"]
 
 
 class Unsupported(Exception):
@@ -84,7 +84,11 @@ class Parser:
                 self.take()
                 b = self.stmt()
             return ('if', c, a, b)
-        if x in ("while", "for", "do", "switch"):
+        if x == "while":
+            self.take()
+            c = self.parens()
+            return ('while', c, self.stmt())
+        if x in ("for", "do", "switch"):
             raise Unsupported("loop / switch statement (%s)" % x)
         toks, depth = [], 0
         while True:
@@ -100,6 +104,10 @@ class Parser:
             return ('return', toks[1:])
         if toks and toks[0] == "goto":
             return ('goto', toks[1])
+        if toks == ["break"]:
+            return ('break',)
+        if toks == ["continue"]:
+            return ('continue',)
         return ('simple', toks)
 
     def all(self):
@@ -349,6 +357,15 @@ class Extract:
         m = re.fullmatch(r"(\w+) > (\w+)", s)
         if m and m.group(1) in self.num and m.group(2) in self.word:
             return ".numGtWord %d %s" % (self.num[m.group(1)], self.we([m.group(2)]))
+        m = re.fullmatch(r"(\w+) < (\w+)", s)
+        if m and m.group(1) in self.num and m.group(2) in self.word:
+            return ".numLtWord %d %s" % (self.num[m.group(1)], self.we([m.group(2)]))
+        m = re.fullmatch(r"(\w+) == (\w+)", s)
+        if m and m.group(1) in self.ptr and m.group(2) in self.ptr:
+            return ".ptrEq %d %d" % (self.ptr[m.group(1)], self.ptr[m.group(2)])
+        m = re.fullmatch(r"(\w+) == UINT32_MAX", s)
+        if m and m.group(1) in self.word:
+            return ".wordIsMax %s" % self.we([m.group(1)])
         m = re.fullmatch(r"s -> captures -> count > (\w+)", s)
         if m and m.group(1) in self.num:
             return ".countGtNum %d" % self.num[m.group(1)]
@@ -367,6 +384,11 @@ class Extract:
             return [".up"]
         if len(toks) == 1:            # `(void) x;`
             return []
+        if len(toks) == 3 and toks[0] == "uint8_t" and toks[1] == "*" and re.fullmatch(r"\w+", toks[2]):   # `const uint8_t *p;`
+            self.new_ptr(toks[2])
+            return []
+        if len(toks) == 2 and toks[1] == "++" and toks[0] in self.num:
+            return [".numDef %d (.succ %d)" % (self.num[toks[0]], self.num[toks[0]])]
         if len(toks) == 2 and toks[0] == "Janet" and re.fullmatch(r"\w+", toks[1]):      # `Janet cap;`
             if toks[1] not in self.val:
                 self.val[toks[1]] = len(self.val)
@@ -411,6 +433,10 @@ class Extract:
             rs = " ".join(rhs)
             if ty is None and star:
                 raise Unsupported("statement `%s`" % s)
+            if ty in ("uint32_t", "int32_t") and not star and re.fullmatch(r"\d+", rs):
+                if name not in self.num:
+                    self.num[name] = len(self.num)
+                return [".numDef %d (.lit %s)" % (self.num[name], rs)]
             if ty in ("uint32_t", "int32_t", "int") and not star:
                 m2 = re.fullmatch(r"rule \[ (\d+) \]", rs)
                 if m2:
@@ -503,14 +529,34 @@ def cond_lean(c):
     return "(%s)" % c
 
 
-def conv(stmts, ex):
-    """statement list (+ the rest of the case) -> Prog source"""
+def conv(stmts, ex, end=".fall", loops=None):
+    """statement list (+ the rest of the case / of the loop body) -> Prog source; `end` = the leaf reached when the list runs
+    out (`.fall` at the end of a case, `.cont` at the end of a loop body); `loops` collects (body, rest) of every loop"""
+    loops = [] if loops is None else loops
     if not stmts:
-        return ".fall"
+        return end
     st, rest = stmts[0], stmts[1:]
     k = st[0]
     if k == 'block':
-        return conv(list(st[1]) + rest, ex)
+        return conv(list(st[1]) + rest, ex, end, loops)
+    if k == 'break':
+        if end != ".cont":
+            raise Unsupported("break outside a loop")
+        return ".brk"
+    if k == 'continue':
+        if end != ".cont":
+            raise Unsupported("continue outside a loop")
+        return ".cont"
+    if k == 'while':
+        c = ex.cond(st[1])
+        if isinstance(c, tuple) and c[0] == 'not':
+            raise Unsupported("negated loop condition")
+        exb = ex.clone()
+        body = conv([st[2]], exb, ".cont", loops)
+        # names first defined inside the body keep their numbers after the loop
+        after = conv(rest, exb, end, loops)
+        loops.append((body, after))
+        return "(.loop %s LOOPBODY%d LOOPREST%d)" % (cond_lean(c), len(loops) - 1, len(loops) - 1)
     if k == 'return':
         toks = unparen(strip_casts(st[1]))
         if toks == ["NULL"]:
@@ -522,6 +568,8 @@ def conv(stmts, ex):
         if st[1] != "tail" or ex.pending_rule is None:
             raise Unsupported("goto %s" % st[1])
         return "(.tail %d)" % ex.pending_rule
+    if k == 'if' and False:
+        pass
     if k == 'if':
         cs_ = " ".join(strip_casts(st[1]))
         m = re.fullmatch(r"(\w+) > INT32_MAX", cs_)
@@ -529,10 +577,10 @@ def conv(stmts, ex):
             body = st[2][1] if st[2][0] == 'block' else [st[2]]
             if len(body) == 1 and body[0][0] == 'simple' and " ".join(strip_casts(body[0][1])) == "%s = INT32_MAX" % m.group(1):
                 ex.clamped.add(m.group(1))
-                return conv(rest, ex)
+                return conv(rest, ex, end, loops)
         c = ex.cond(st[1])
-        a = conv([st[2]] + rest, ex.clone())
-        b = conv(([st[3]] if st[3] is not None else []) + rest, ex.clone())
+        a = conv([st[2]] + rest, ex.clone(), end, loops)
+        b = conv(([st[3]] if st[3] is not None else []) + rest, ex.clone(), end, loops)
         if isinstance(c, tuple) and c[0] == 'not':          # normalise: no negation at the top of a condition
             c, a, b = c[1], b, a
         return "(.ite %s %s %s)" % (cond_lean(c), a, b)
@@ -541,14 +589,16 @@ def conv(stmts, ex):
         tail = out[-1][1:]
         out = out[:-1]
     else:
-        tail = conv(rest, ex)
+        tail = conv(rest, ex, end, loops)
     for s in reversed(out):
         tail = "(.seq (%s) %s)" % (s, tail)
     return tail
 
 
 def extract_ir(case_text):
-    return conv(parse_case(case_text), Extract())
+    """-> (program source with LOOPBODYn / LOOPRESTn placeholders, [(body, rest)])"""
+    loops = []
+    return conv(parse_case(case_text), Extract(), ".fall", loops), loops
 
 
 # ------------------------------------------------------------------------------------------------ canonical form of a case body
@@ -616,7 +666,7 @@ def extract(tree):
     from . import peg as gen_peg
     src = csrc.strip_comments(csrc.read(tree, "src/core/peg.c"))
     body = csrc.func_body(src, "peg_rule")
-    progs, problems, canons = {}, {}, {}
+    progs, problems, canons, loops = {}, {}, {}, {}
     for labels, text in gen_peg.split_cases(body):
         if labels == ("default",):
             continue
@@ -626,14 +676,14 @@ def extract(tree):
         for lab in labels:
             if lab in IR_RULES:
                 try:
-                    progs[lab] = extract_ir(text)
+                    progs[lab], loops[lab] = extract_ir(text)
                 except Unsupported as e:
-                    progs[lab] = ".fall"
+                    progs[lab], loops[lab] = ".fall", []
                     problems[lab] = str(e)
     missing = [r for r in IR_RULES if r not in progs]
     if missing:
         raise ExtractError("peg_rule has no case for %s" % missing)
-    return dict(progs=progs, problems=problems, canons=canons)
+    return dict(progs=progs, problems=problems, canons=canons, loops=loops)
 
 
 def render(tree):
@@ -643,6 +693,15 @@ def render(tree):
     for r in IR_RULES:
         if r in x["problems"]:
             out.append("-- NOT TRANSLATED: %s" % x["problems"][r].replace("\n", " "))
-        out.append("def %s : Prog :=\n  %s\n" % (r, x["progs"][r]))
+        src = x["progs"][r]
+        # loops: body and rest as definitions of their own (inner loops first), so that Peg/TieSkel.lean can name them
+        for i, (b, a) in enumerate(x["loops"][r]):
+            for j in range(i):
+                b = b.replace("LOOPBODY%d" % j, "%s_body%d" % (r, j)).replace("LOOPREST%d" % j, "%s_rest%d" % (r, j))
+                a = a.replace("LOOPBODY%d" % j, "%s_body%d" % (r, j)).replace("LOOPREST%d" % j, "%s_rest%d" % (r, j))
+            out.append("def %s_body%d : Prog :=\n  %s\n" % (r, i, b))
+            out.append("def %s_rest%d : Prog :=\n  %s\n" % (r, i, a))
+            src = src.replace("LOOPBODY%d" % i, "%s_body%d" % (r, i)).replace("LOOPREST%d" % i, "%s_rest%d" % (r, i))
+        out.append("def %s : Prog :=\n  %s\n" % (r, src))
     out.append("end JanetModel.Gen.PegSkel\n")
     return "\n".join(out)
